@@ -84,6 +84,9 @@ func drawStream(t *rapid.T, dpool []*dialectInfo) *streamCase {
 		choices := []string{"valid", "valid", "junk"}
 		if !sc.cleanly {
 			choices = append(choices, "truncated", "badcrc", "badsig", "badflag", "markerjunk", "glued")
+			if sc.di != nil && sc.key == nil {
+				choices = append(choices, "v1-wrong-length")
+			}
 		}
 		switch rapid.SampledFrom(choices).Draw(t, "segkind") {
 		case "valid":
@@ -117,6 +120,32 @@ func drawStream(t *rapid.T, dpool []*dialectInfo) *streamCase {
 				f.Sig[rapid.IntRange(0, 5).Draw(t, "sigi")] ^= byte(rapid.IntRange(1, 255).Draw(t, "sigx"))
 			}
 			sc.segs = append(sc.segs, segment{kind: "badsig", bytes: f.Bytes()})
+		case "v1-wrong-length":
+			// a v1 frame of a message the dialect knows, with a checksum that fits its bytes, whose payload is longer
+			// or shorter than the definition (a peer with another revision of the message): rejected input like any
+			// other - a parse error, never the end of the stream
+			var ids []uint32
+			for _, id := range sc.di.ids {
+				if id <= 255 {
+					ids = append(ids, id)
+				}
+			}
+			if len(ids) > 0 {
+				id := ids[rapid.IntRange(0, len(ids)-1).Draw(t, "wl_id")]
+				lay := sc.di.layouts[id]
+				f := gen.RawFrame(t, gen.FrameOpts{Version: 1})
+				f.V2, f.ID = false, id
+				n := lay.BaseSize + rapid.SampledFrom([]int{-2, -1, 1, 2, 9}).Draw(t, "wl_delta")
+				if n < 0 {
+					n = lay.BaseSize + 1
+				}
+				if n > 255 {
+					n = lay.BaseSize - 1
+				}
+				f.Payload = gen.Bytes(t, n, "wl_payload")
+				f.Checksum = f.ChecksumFor(lay.CRCExtra)
+				sc.segs = append(sc.segs, segment{kind: "v1-wrong-length", bytes: f.Bytes()})
+			}
 		case "badflag":
 			f, _ := mkValid()
 			if f.V2 {
@@ -318,7 +347,7 @@ func checkStreamSizes(t *rapid.T, sc *streamCase, rec *evid.Rec, fixedSizes []in
 
 func TestC05Streams(t *testing.T) {
 	rec := evid.New(t, "C05", "streams from a grammar (valid raw/dialect/signed frames, truncated frames, damaged checksum/signature/flags, junk with and without markers, glued frames) fed whole, byte-wise, in generated chunks and with a transport error injected at a generated offset; oracles: no panic, progress, consumed-span exactness against the reference, identical (kind,span) sequences across feedings, completeness on clean streams, the transport's own error surfaces; non-trivial = a delivered frame straddles a read boundary, or markers inside noise, or a truncated frame; distinct by hash of (stream, chunking)")
-	rec.Require("frame-straddles-read-boundary", "seg-markerjunk", "seg-truncated", "clean-stream", "keyed", "dialect", "fault-injected", "seg-badcrc", "seg-badsig")
+	rec.Require("frame-straddles-read-boundary", "seg-markerjunk", "seg-truncated", "clean-stream", "keyed", "dialect", "fault-injected", "seg-badcrc", "seg-badsig", "seg-v1-wrong-length")
 	dpool := pool(t)
 	evid.Check(t, rec, evid.N(40000, 150000), func(t *rapid.T) {
 		drawBufSize(t)
